@@ -1,8 +1,11 @@
 import CJ.Drv.Loop
 import CJ.Drv.Detector
-/-! Driver for C10: the station → detector channel model. -/
+import CJ.Drv.Announce
+/-! Driver for C10: the station → detector channel model (`c10|`: messages, sweeps and lookups on one
+detector) and the registry ∥ detector history model (`c10h|`). -/
 open CJ.Drv
 
 def main : IO Unit := runDriver fun
   | "c10" :: args => Detector.handle args
+  | "c10h" :: args => Announce.handle args
   | _ => none
